@@ -1,9 +1,1069 @@
+(* C06/Proofs.v — lemmas about the reference model R_shape. *)
 From Coq Require Import List NArith ZArith Bool Arith Lia.
 From Gen Require Import Consts C06.
-From C06 Require Import Model.
+From C06 Require Import Model Spec Util.
 Import ListNotations.
+
+(* ------------------------------------------------------------ list order *)
 
 Lemma R_run_app : forall ll gd budget l1 l2 seq,
   R_run ll gd budget (l1 ++ l2) seq =
   fold_left (apply_lookup ll gd budget) l2 (R_run ll gd budget l1 seq).
 Proof. intros. unfold R_run. apply fold_left_app. Qed.
+
+(* ------------------------------------------------- first matching subtable *)
+
+Lemma try_subs_first : forall ll gd budget rec kp a tl s pre sub post r,
+  (forall x, In x pre -> try_sub ll gd budget rec kp a tl s x = None) ->
+  try_sub ll gd budget rec kp a tl s sub = Some r ->
+  try_subs ll gd budget rec kp a tl s (pre ++ sub :: post) = Some r.
+Proof.
+  intros ll gd budget rec kp a tl s pre. induction pre as [|x pre IH]; intros sub post r Hpre Hsub; simpl.
+  - rewrite Hsub. reflexivity.
+  - rewrite (Hpre x) by (left; reflexivity). apply IH; [|assumption].
+    intros y Hy. apply Hpre. right. assumption.
+Qed.
+
+Lemma try_subs_none : forall ll gd budget rec kp a tl s subs,
+  (forall x, In x subs -> try_sub ll gd budget rec kp a tl s x = None) ->
+  try_subs ll gd budget rec kp a tl s subs = None.
+Proof.
+  intros ll gd budget rec kp a tl s subs. induction subs as [|x subs IH]; intros H; simpl; [reflexivity|].
+  rewrite (H x) by (left; reflexivity). apply IH. intros y Hy. apply H. right. assumption.
+Qed.
+
+Lemma try_subs_some_inv : forall ll gd budget rec kp a tl s subs r,
+  try_subs ll gd budget rec kp a tl s subs = Some r ->
+  exists pre sub post, subs = pre ++ sub :: post /\
+    (forall x, In x pre -> try_sub ll gd budget rec kp a tl s x = None) /\
+    try_sub ll gd budget rec kp a tl s sub = Some r.
+Proof.
+  intros ll gd budget rec kp a tl s subs. induction subs as [|x subs IH]; intros r H; simpl in H; [discriminate|].
+  destruct (try_sub ll gd budget rec kp a tl s x) as [r'|] eqn:E.
+  - inversion H; subst. exists [], x, subs. repeat split; auto. intros y [].
+  - destruct (IH r H) as (pre & sub & post & -> & Hpre & Hsub).
+    exists (x :: pre), sub, post. repeat split; auto.
+    intros y [<-|Hy]; auto.
+Qed.
+
+(* ------------------------------------------------------------------ keep *)
+
+Lemma keep_nogdef : forall flags mfs g, keep None flags mfs g = true.
+Proof. reflexivity. Qed.
+
+Lemma keep_mark_ignoremarks : forall d flags mfs g,
+  class_of (gd_class d) g = c06_GlyphClassMark ->
+  has_flag flags c06_IgnoreMarks = true ->
+  keep (Some d) flags mfs g = false.
+Proof.
+  intros d flags mfs g Hc Hf. unfold keep. rewrite Hc.
+  change (N.eqb c06_GlyphClassMark c06_GlyphClassBase) with false.
+  change (N.eqb c06_GlyphClassMark c06_GlyphClassLigature) with false.
+  change (N.eqb c06_GlyphClassMark c06_GlyphClassMark) with true.
+  cbv iota. rewrite Hf. reflexivity.
+Qed.
+
+Lemma keep_mark_filterset : forall d flags mfs g,
+  class_of (gd_class d) g = c06_GlyphClassMark ->
+  has_flag flags c06_IgnoreMarks = false ->
+  has_flag flags c06_UseMarkFilteringSet = true ->
+  keep (Some d) flags mfs g = memN g (nth (N.to_nat mfs) (gd_sets d) []).
+Proof.
+  intros d flags mfs g Hc Hf1 Hf2. unfold keep. rewrite Hc.
+  change (N.eqb c06_GlyphClassMark c06_GlyphClassBase) with false.
+  change (N.eqb c06_GlyphClassMark c06_GlyphClassLigature) with false.
+  change (N.eqb c06_GlyphClassMark c06_GlyphClassMark) with true.
+  cbv iota. rewrite Hf1, Hf2. reflexivity.
+Qed.
+
+Lemma keep_mark_attach : forall d flags mfs g,
+  class_of (gd_class d) g = c06_GlyphClassMark ->
+  has_flag flags c06_IgnoreMarks = false ->
+  has_flag flags c06_UseMarkFilteringSet = false ->
+  keep (Some d) flags mfs g =
+    (N.eqb (attach_type flags) 0 || N.eqb (class_of (gd_attach d) g) (attach_type flags)).
+Proof.
+  intros d flags mfs g Hc Hf1 Hf2. unfold keep. rewrite Hc.
+  change (N.eqb c06_GlyphClassMark c06_GlyphClassBase) with false.
+  change (N.eqb c06_GlyphClassMark c06_GlyphClassLigature) with false.
+  change (N.eqb c06_GlyphClassMark c06_GlyphClassMark) with true.
+  cbv iota. rewrite Hf1, Hf2. destruct (N.eqb (attach_type flags) 0); reflexivity.
+Qed.
+
+Lemma keep_base : forall d flags mfs g,
+  class_of (gd_class d) g = c06_GlyphClassBase ->
+  keep (Some d) flags mfs g = negb (has_flag flags c06_IgnoreBaseGlyphs).
+Proof.
+  intros d flags mfs g Hc. unfold keep. rewrite Hc.
+  change (N.eqb c06_GlyphClassBase c06_GlyphClassBase) with true. reflexivity.
+Qed.
+
+Lemma keep_ligature : forall d flags mfs g,
+  class_of (gd_class d) g = c06_GlyphClassLigature ->
+  keep (Some d) flags mfs g = negb (has_flag flags c06_IgnoreLigatures).
+Proof.
+  intros d flags mfs g Hc. unfold keep. rewrite Hc.
+  change (N.eqb c06_GlyphClassLigature c06_GlyphClassBase) with false.
+  change (N.eqb c06_GlyphClassLigature c06_GlyphClassLigature) with true. reflexivity.
+Qed.
+
+Lemma keep_other : forall d flags mfs g,
+  class_of (gd_class d) g <> c06_GlyphClassBase ->
+  class_of (gd_class d) g <> c06_GlyphClassLigature ->
+  class_of (gd_class d) g <> c06_GlyphClassMark ->
+  keep (Some d) flags mfs g = true.
+Proof.
+  intros d flags mfs g H1 H2 H3. unfold keep.
+  apply N.eqb_neq in H1. apply N.eqb_neq in H2. apply N.eqb_neq in H3.
+  rewrite H1, H2, H3. reflexivity.
+Qed.
+
+(* --------------------------------------------------------------- matching *)
+
+Lemma next_kept_spec : forall kp l p g l' q,
+  next_kept kp l p = Some (g, l', q) ->
+  p <= q /\ nth_error l (q - p) = Some g /\ kp (gid g) = true /\ l' = skipn (S (q - p)) l /\
+  (forall i h, i < q - p -> nth_error l i = Some h -> kp (gid h) = false).
+Proof.
+  intros kp l. induction l as [|x l IH]; intros p g l' q H; simpl in H; [discriminate|].
+  destruct (kp (gid x)) eqn:E.
+  - inversion H; subst. replace (q - q) with 0 by lia. simpl.
+    repeat split; auto. intros i h Hi. lia.
+  - apply IH in H. destruct H as (Hle & Hn & Hk & Hl & Hs).
+    replace (q - p) with (S (q - S p)) by lia. simpl.
+    repeat split; auto; try lia.
+    intros i h Hi Hnth. destruct i; simpl in Hnth.
+    + inversion Hnth; subst. assumption.
+    + apply (Hs i h); [lia|assumption].
+Qed.
+
+Lemma memnat_true : forall p l, memnat p l = true <-> In p l.
+Proof.
+  intros p l. unfold memnat. rewrite existsb_exists. split.
+  - intros (x & Hx & He). apply Nat.eqb_eq in He. subst. assumption.
+  - intros H. exists p. split; [assumption|apply Nat.eqb_refl].
+Qed.
+
+Lemma memnat_false : forall p l, memnat p l = false <-> ~ In p l.
+Proof.
+  intros p l. rewrite <- memnat_true. destruct (memnat p l); split; intros; try discriminate; auto.
+  exfalso; auto.
+Qed.
+
+Lemma match_seq_length : forall kp preds l p qs,
+  match_seq kp preds l p = Some qs -> length qs = length preds.
+Proof.
+  intros kp preds. induction preds as [|pr preds IH]; intros l p qs H; simpl in H.
+  - inversion H; reflexivity.
+  - destruct (next_kept kp l p) as [[[g l'] q]|]; [|discriminate].
+    destruct (test_pred pr (gid g)); [|discriminate].
+    destruct (match_seq kp preds l' (S q)) as [qs'|] eqn:E; [|discriminate].
+    inversion H; subst. simpl. f_equal. eapply IH; eassumption.
+Qed.
+
+Lemma match_seq_bounds : forall kp preds l p qs,
+  match_seq kp preds l p = Some qs -> forall q, In q qs -> p <= q < p + length l.
+Proof.
+  intros kp preds. induction preds as [|pr preds IH]; intros l p qs H q0 Hin; simpl in H.
+  - inversion H; subst. destruct Hin.
+  - destruct (next_kept kp l p) as [[[g l'] q]|] eqn:En; [|discriminate].
+    destruct (test_pred pr (gid g)); [|discriminate].
+    destruct (match_seq kp preds l' (S q)) as [qs'|] eqn:E; [|discriminate].
+    inversion H; subst. apply next_kept_spec in En.
+    destruct En as (Hle & Hn & Hk & Hl & Hs).
+    assert (Hq : q - p < length l) by (apply nth_error_Some; congruence).
+    destruct Hin as [<-|Hin]; [lia|].
+    specialize (IH _ _ _ E _ Hin). subst l'. rewrite skipn_length in IH. lia.
+Qed.
+
+Lemma last_cons_ne {A} (x : A) (l : list A) (d d' : A) : l <> [] -> last (x :: l) d = last l d'.
+Proof.
+  revert x. induction l as [|y l IH]; intros x H; [congruence|].
+  destruct l as [|z l]; [reflexivity|].
+  change (last (x :: y :: z :: l) d) with (last (y :: z :: l) d).
+  change (last (y :: z :: l) d') with (last (z :: l) d').
+  rewrite (IH y) by discriminate. reflexivity.
+Qed.
+
+Lemma match_seq_last : forall kp preds l p qs,
+  match_seq kp preds l p = Some qs -> qs <> [] -> p + length qs <= S (last qs 0).
+Proof.
+  intros kp preds. induction preds as [|pr preds IH]; intros l p qs H Hne; simpl in H.
+  - inversion H; subst. congruence.
+  - destruct (next_kept kp l p) as [[[g l'] q]|] eqn:En; [|discriminate].
+    destruct (test_pred pr (gid g)); [|discriminate].
+    destruct (match_seq kp preds l' (S q)) as [qs'|] eqn:E; [|discriminate].
+    inversion H; subst. apply next_kept_spec in En. destruct En as (Hle & _).
+    destruct qs' as [|q' qs'].
+    + simpl. lia.
+    + rewrite (last_cons_ne q (q' :: qs') 0 0) by discriminate.
+      assert (Hne' : q' :: qs' <> []) by discriminate.
+      specialize (IH _ _ _ E Hne'). simpl in *. lia.
+Qed.
+
+(* inside the matched span, a glyph is kept iff it is one of the matched ones *)
+Lemma match_seq_kept_iff : forall kp preds l p qs,
+  match_seq kp preds l p = Some qs ->
+  forall j h, p + j <= last qs 0 -> qs <> [] -> nth_error l j = Some h ->
+  kp (gid h) = memnat (p + j) qs.
+Proof.
+  intros kp preds. induction preds as [|pr preds IH]; intros l p qs H j h Hj Hne Hnth; simpl in H.
+  - inversion H; subst. congruence.
+  - destruct (next_kept kp l p) as [[[g l'] q]|] eqn:En; [|discriminate].
+    destruct (test_pred pr (gid g)); [|discriminate].
+    destruct (match_seq kp preds l' (S q)) as [qs'|] eqn:E; [|discriminate].
+    inversion H; subst. apply next_kept_spec in En.
+    destruct En as (Hle & Hn & Hk & Hl & Hs).
+    pose proof (match_seq_bounds _ _ _ _ _ E) as Hb.
+    destruct (Nat.lt_trichotomy j (q - p)) as [Hlt|[Heq|Hgt]].
+    + rewrite (Hs j h Hlt Hnth). symmetry. apply memnat_false.
+      intros [Hq|Hin]; [lia|]. apply Hb in Hin. lia.
+    + subst j. rewrite Hn in Hnth. inversion Hnth; subst.
+      rewrite Hk. symmetry. apply memnat_true. left. lia.
+    + destruct qs' as [|q' qs'].
+      * simpl in Hj. lia.
+      * rewrite (last_cons_ne q (q' :: qs') 0 0) in Hj by discriminate.
+        assert (Hnth' : nth_error l' (j - S (q - p)) = Some h).
+        { subst l'. rewrite nth_error_skipn_add. replace (S (q - p) + (j - S (q - p))) with j by lia. assumption. }
+        pose proof (IH _ _ _ E (j - S (q - p)) h) as IH'.
+        replace (S q + (j - S (q - p))) with (p + j) in IH' by lia.
+        rewrite IH' by (auto; discriminate).
+        unfold memnat. simpl. replace (p + j =? q) with false by (symmetry; apply Nat.eqb_neq; lia).
+        reflexivity.
+Qed.
+
+Lemma drop_at_filter : forall kp qs (l : list glyph) p,
+  (forall j h, nth_error l j = Some h -> kp (gid h) = memnat (p + j) qs) ->
+  drop_at l p qs = filter (skipped kp) l.
+Proof.
+  intros kp qs l. induction l as [|x l IH]; intros p H; simpl; [reflexivity|].
+  pose proof (H 0 x eq_refl) as H0. rewrite Nat.add_0_r in H0.
+  unfold skipped at 1. rewrite H0.
+  assert (IH' : drop_at l (S p) qs = filter (skipped kp) l).
+  { apply IH. intros j h Hj. rewrite (H (S j) h Hj). f_equal. lia. }
+  destruct (memnat p qs); simpl; rewrite IH'; reflexivity.
+Qed.
+
+Lemma drop_at_app {A} : forall (l1 l2 : list A) p qs,
+  drop_at (l1 ++ l2) p qs = drop_at l1 p qs ++ drop_at l2 (p + length l1) qs.
+Proof.
+  induction l1 as [|x l1 IH]; intros l2 p qs; simpl.
+  - rewrite Nat.add_0_r. reflexivity.
+  - rewrite IH. replace (S p + length l1) with (p + S (length l1)) by lia.
+    destruct (memnat p qs); reflexivity.
+Qed.
+
+Lemma drop_at_beyond {A} : forall (l : list A) p qs,
+  (forall q, In q qs -> q < p) -> drop_at l p qs = l.
+Proof.
+  induction l as [|x l IH]; intros p qs H; simpl; [reflexivity|].
+  replace (memnat p qs) with false.
+  - f_equal. apply IH. intros q Hq. specialize (H q Hq). lia.
+  - symmetry. apply memnat_false. intros Hin. specialize (H p Hin). lia.
+Qed.
+
+Lemma drop_at_subseq {A} : forall (l : list A) p qs, Subseq (drop_at l p qs) l.
+Proof.
+  induction l as [|x l IH]; intros p qs; simpl; [constructor|].
+  destruct (memnat p qs); [apply sub_skip | apply sub_cons]; apply IH.
+Qed.
+
+Lemma last_in {A} (l : list A) (d : A) : l <> [] -> In (last l d) l.
+Proof.
+  induction l as [|x l IH]; intros H; [congruence|].
+  destruct l as [|y l]; [left; reflexivity|].
+  right. change (last (x :: y :: l) d) with (last (y :: l) d). apply IH. discriminate.
+Qed.
+
+Lemma match_seq_le_last : forall kp preds l p qs,
+  match_seq kp preds l p = Some qs -> forall q, In q qs -> q <= last qs 0.
+Proof.
+  intros kp preds. induction preds as [|pr preds IH]; intros l p qs H q0 Hin; simpl in H.
+  - inversion H; subst. destruct Hin.
+  - destruct (next_kept kp l p) as [[[g l'] q]|] eqn:En; [|discriminate].
+    destruct (test_pred pr (gid g)); [|discriminate].
+    destruct (match_seq kp preds l' (S q)) as [qs'|] eqn:E; [|discriminate].
+    inversion H; subst.
+    destruct qs' as [|q' qs'].
+    + destruct Hin as [<-|[]]. simpl. lia.
+    + rewrite (last_cons_ne q (q' :: qs') 0 0) by discriminate.
+      destruct Hin as [<-|Hin].
+      * assert (Hne : q' :: qs' <> []) by discriminate.
+        pose proof (match_seq_bounds _ _ _ _ _ E (last (q' :: qs') 0) (last_in _ 0 Hne)). lia.
+      * eapply IH; eassumption.
+Qed.
+
+Lemma skipn_skipn' {A} (l : list A) : forall x y, skipn x (skipn y l) = skipn (y + x) l.
+Proof.
+  induction l as [|z l IH]; intros x y.
+  - rewrite !skipn_nil. reflexivity.
+  - destruct y; simpl; [reflexivity|]. apply IH.
+Qed.
+
+Lemma skipn_split_slice {A} (l : list A) (i j : nat) :
+  i <= j -> skipn i l = slice l i j ++ skipn j l.
+Proof.
+  intros H. unfold slice. rewrite <- (firstn_skipn (j - i) (skipn i l)) at 1.
+  f_equal. rewrite skipn_skipn'. f_equal. lia.
+Qed.
+
+(* shape of the sequence behind a ligature: the glyphs of the matched span
+   which are not components are exactly the skipped ones, in order *)
+Lemma merge_shape : forall kp preds seq a b qs,
+  match_seq kp preds (slice seq (S a) b) (S a) = Some qs ->
+  drop_at (skipn (S a) seq) (S a) qs =
+  filter (skipped kp) (slice seq (S a) (S (last_pos (a :: qs) a))) ++
+  skipn (S (last_pos (a :: qs) a)) seq.
+Proof.
+  intros kp preds seq a b qs H. unfold last_pos.
+  destruct qs as [|q0 qs0].
+  - cbn [last]. unfold slice. rewrite Nat.sub_diag. cbn [firstn filter app].
+    apply drop_at_beyond. intros q [].
+  - set (qs := q0 :: qs0) in *.
+    rewrite (last_cons_ne a qs a 0) by (unfold qs; discriminate).
+    set (lst := last qs 0).
+    assert (Hin : In lst qs) by (apply last_in; unfold qs; discriminate).
+    pose proof (match_seq_bounds _ _ _ _ _ H lst Hin) as Hb.
+    pose proof (slice_length seq (S a) b) as Hsl.
+    assert (Hlen : lst < length seq).
+    { pose proof (match_seq_kept_iff _ _ _ _ _ H (lst - S a)) as _.
+      assert (Hx : lst - S a < length (slice seq (S a) b)) by lia.
+      apply nth_error_Some in Hx.
+      destruct (nth_error (slice seq (S a) b) (lst - S a)) as [h|] eqn:Eh; [|congruence].
+      apply nth_error_slice in Eh. destruct Eh as [Eh _].
+      assert (S a + (lst - S a) < length seq) by (apply nth_error_Some; congruence). lia. }
+    rewrite (skipn_split_slice seq (S a) (S lst)) by lia.
+    rewrite drop_at_app. f_equal.
+    + apply drop_at_filter. intros j h Hj.
+      apply nth_error_slice in Hj. destruct Hj as [Hj Hlt].
+      apply (match_seq_kept_iff _ _ _ _ _ H j h); [fold lst; lia | unfold qs; discriminate |].
+      unfold slice. rewrite nth_error_firstn_lt by lia.
+      rewrite nth_error_skipn_add. assumption.
+    + apply drop_at_beyond. intros q Hq.
+      pose proof (match_seq_le_last _ _ _ _ _ H q Hq) as Hle. fold lst in Hle.
+      unfold slice. rewrite firstn_length, skipn_length. lia.
+Qed.
+
+Lemma match_input_inv : forall kp seq a b pr rest ms,
+  match_input kp seq a b (pr :: rest) = Some ms ->
+  exists g0 qs, nth_error seq a = Some g0 /\ a < b /\ test_pred pr (gid g0) = true /\
+    match_seq kp rest (slice seq (S a) b) (S a) = Some qs /\ ms = a :: qs.
+Proof.
+  intros kp seq a b pr rest ms H. unfold match_input in H.
+  destruct (nth_error seq a) as [g0|]; [|discriminate].
+  destruct (a <? b) eqn:Eab; simpl in H; [|discriminate].
+  destruct (test_pred pr (gid g0)) eqn:Et; [|discriminate].
+  destruct (match_seq kp rest (slice seq (S a) b) (S a)) as [qs|] eqn:E; [|discriminate].
+  inversion H; subst. apply Nat.ltb_lt in Eab. exists g0, qs. auto.
+Qed.
+
+(* ------------------------------------------- effects of simple subtables *)
+
+Lemma find_lig_inv : forall kp seq a b g ligs ms out,
+  find_lig kp seq a b g ligs = Some (ms, out) ->
+  exists pre comps post, ligs = pre ++ (comps, out) :: post /\
+    (forall c o, In (c, o) pre -> match_input kp seq a b (PGlyph g :: map PGlyph c) = None) /\
+    match_input kp seq a b (PGlyph g :: map PGlyph comps) = Some ms.
+Proof.
+  intros kp seq a b g ligs. induction ligs as [|[c o] ligs IH]; intros ms out H; cbn [find_lig] in H; [discriminate|].
+  destruct (match_input kp seq a b (PGlyph g :: map PGlyph c)) as [ms'|] eqn:E.
+  - inversion H; subst. exists [], c, ligs.
+    split; [reflexivity|]. split; [intros ? ? []|assumption].
+  - destruct (IH _ _ H) as (pre & comps & post & -> & Hpre & Hm).
+    exists ((c, o) :: pre), comps, post.
+    split; [reflexivity|]. split; [|assumption].
+    intros c' o' [Heq|Hin]; [inversion Heq; subst; assumption | eapply Hpre; eassumption].
+Qed.
+
+Lemma pair_second_kept : forall kp seq a b g1 l' p,
+  next_kept kp (slice seq (S a) b) (S a) = Some (g1, l', p) ->
+  a < p /\ nth_error seq p = Some g1 /\ kp (gid_at seq p) = true.
+Proof.
+  intros kp seq a b g1 l' p H. apply next_kept_spec in H.
+  destruct H as (Hle & Hn & Hk & _). apply nth_error_slice in Hn. destruct Hn as [Hn _].
+  replace (S a + (p - S a)) with p in Hn by lia.
+  repeat split; [lia | assumption |]. unfold gid_at. rewrite Hn. assumption.
+Qed.
+
+Lemma simple_effect_wf : forall gd kp seq a b sub e ok,
+  simple_effect gd kp seq a b sub = Some (e, ok) ->
+  effect_wf kp seq a e /\ a < length seq.
+Proof.
+  intros gd kp seq a b sub e ok H. unfold simple_effect in H.
+  destruct (nth_error seq a) as [g0|] eqn:Ea; [|discriminate].
+  assert (Hlen : a < length seq) by (apply nth_error_Some; congruence).
+  split; [|assumption].
+  destruct sub; try discriminate.
+  - (* single 1 *) destruct (memN (gid g0) cov); inversion H; subst. simpl. split; [lia|reflexivity].
+  - destruct (assoc (gid g0) m); inversion H; subst. simpl. split; [lia|reflexivity].
+  - destruct (assoc (gid g0) m) as [[|h hs]|]; inversion H; subst. simpl. split; [reflexivity|discriminate].
+  - destruct (assoc (gid g0) m) as [[|h hs]|]; inversion H; subst. simpl. split; [lia|reflexivity].
+  - (* ligature *)
+    destruct (assoc (gid g0) m) as [ligs|]; [|discriminate].
+    destruct (find_lig kp seq a b (gid g0) ligs) as [[ms out]|] eqn:El; inversion H; subst.
+    apply find_lig_inv in El. destruct El as (pre & comps & post & _ & _ & Hm).
+    apply match_input_inv in Hm. destruct Hm as (g0' & qs & _ & _ & _ & Hq & ->).
+    simpl. exists (map PGlyph comps), b, qs. auto.
+  - destruct (memN (gid g0) cov); inversion H; subst. simpl. split; [lia|reflexivity].
+  - destruct (assoc (gid g0) m); inversion H; subst. simpl. split; [lia|reflexivity].
+  - (* pair 1 *)
+    destruct (next_kept kp (slice seq (S a) b) (S a)) as [[[g1 l'] p]|] eqn:En; [|discriminate].
+    apply pair_second_kept in En. destruct En as (Hap & Hn & Hk).
+    destruct (assoc (gid g0) m) as [row|]; [|discriminate].
+    destruct (assoc (gid g1) row) as [[v1 [v2|]]|]; inversion H; subst; simpl.
+    + split; [lia|]. auto.
+    + split; [lia|reflexivity].
+  - (* pair 2 *)
+    destruct (memN (gid g0) cov); [|discriminate].
+    destruct (next_kept kp (slice seq (S a) b) (S a)) as [[[g1 l'] p]|] eqn:En; [|discriminate].
+    apply pair_second_kept in En. destruct En as (Hap & Hn & Hk).
+    destruct (nth_error m (N.to_nat (class_of cd1 (gid g0)))) as [row|]; [|discriminate].
+    destruct (nth_error row (N.to_nat (class_of cd2 (gid g1)))) as [[v1 [v2|]]|]; inversion H; subst; simpl.
+    + split; [lia|]. auto.
+    + split; [lia|reflexivity].
+  - (* mark to base *)
+    destruct (assoc (gid g0) marks) as [[cls [mx my]]|]; [|discriminate].
+    destruct (find_base bases (rev (firstn a seq)) 1) as [[anchors d]|]; [|discriminate].
+    destruct (nth_error anchors cls) as [[[bx byy]|]|]; inversion H; subst.
+    simpl. split; [lia|reflexivity].
+Qed.
+
+(* ------------------------------------------------------ skipped glyphs *)
+
+Lemma filter_app_skipped : forall kp (l1 l2 : list glyph),
+  filter (skipped kp) (l1 ++ l2) = filter (skipped kp) l1 ++ filter (skipped kp) l2.
+Proof. intros. apply filter_app. Qed.
+
+Lemma set_nth_skipped : forall kp (l : list glyph) p g',
+  kp (gid_at l p) = true -> Subseq (filter (skipped kp) l) (set_nth p g' l).
+Proof.
+  intros kp l p g' Hk. unfold gid_at in Hk.
+  destruct (nth_error l p) as [g|] eqn:E.
+  - rewrite (set_nth_split l p g' g E).
+    rewrite (firstn_skipn_cons l p g E) at 1.
+    rewrite filter_app_skipped. apply subseq_app; [apply filter_subseq|].
+    simpl. unfold skipped at 1. rewrite Hk. simpl. apply sub_skip. apply filter_subseq.
+  - rewrite set_nth_none by assumption. apply filter_subseq.
+Qed.
+
+Lemma filter_skipped_kept : forall kp g (l : list glyph),
+  kp (gid g) = true -> filter (skipped kp) (g :: l) = filter (skipped kp) l.
+Proof. intros kp g l H. cbn [filter]. unfold skipped at 1. rewrite H. reflexivity. Qed.
+
+Lemma subseq_app_r {A} (l1 l2 pre : list A) : Subseq l1 l2 -> Subseq l1 (pre ++ l2).
+Proof. intros H. induction pre; simpl; [assumption | apply sub_skip; assumption]. Qed.
+
+Lemma apply_effect_skipped : forall kp seq a e s,
+  s_seq s = seq -> effect_wf kp seq a e -> kp (gid_at seq a) = true ->
+  Subseq (filter (skipped kp) seq) (s_seq (fst (apply_effect e s))).
+Proof.
+  intros kp seq a e s Hs Hwf Hk. destruct e as [upd next | p gs | ms lig].
+  - destruct Hwf as [_ Hwf]. cbn [apply_effect fst s_seq]. rewrite Hs.
+    destruct upd as [|[p1 g1] [|[p2 g2] [|? ?]]]; try contradiction.
+    + subst p1. cbn [fold_left fst snd]. apply set_nth_skipped. assumption.
+    + destruct Hwf as (-> & Hlt & Hk2). cbn [fold_left fst snd].
+      eapply skipped_chain; [apply set_nth_skipped; exact Hk|].
+      apply set_nth_skipped. unfold gid_at in *.
+      rewrite nth_error_set_nth_other by lia. assumption.
+  - destruct Hwf as [-> _]. cbn [apply_effect fst s_seq]. rewrite Hs.
+    unfold gid_at in Hk. destruct (nth_error seq a) as [g|] eqn:E.
+    + rewrite (firstn_skipn_cons seq a g E) at 1.
+      rewrite filter_app_skipped. apply subseq_app; [apply filter_subseq|].
+      rewrite filter_skipped_kept by assumption.
+      apply subseq_app_r. apply filter_subseq.
+    + assert (Hlen : length seq <= a) by (apply nth_error_None; assumption).
+      rewrite firstn_all2 by assumption.
+      replace (filter (skipped kp) seq) with (filter (skipped kp) seq ++ []) by apply app_nil_r.
+      apply subseq_app; [apply filter_subseq | constructor].
+  - destruct Hwf as (preds & b & qs & -> & Hm). cbn [apply_effect fst s_seq hd tl]. rewrite Hs.
+    rewrite (merge_shape _ _ _ _ _ _ Hm).
+    unfold gid_at in Hk. destruct (nth_error seq a) as [g|] eqn:E.
+    + rewrite (firstn_skipn_cons seq a g E) at 1.
+      rewrite filter_app_skipped. apply subseq_app; [apply filter_subseq|].
+      rewrite filter_skipped_kept by assumption. apply sub_skip.
+      set (lst := last_pos (a :: qs) a).
+      assert (Hle : S a <= S lst).
+      { unfold lst, last_pos. destruct qs as [|q0 qs0]; [simpl; lia|].
+        rewrite (last_cons_ne a (q0 :: qs0) a 0) by discriminate.
+        assert (Hne : q0 :: qs0 <> []) by discriminate.
+        pose proof (match_seq_bounds _ _ _ _ _ Hm _ (last_in _ 0 Hne)). lia. }
+      rewrite (skipn_split_slice seq (S a) (S lst) Hle) at 1.
+      rewrite filter_app_skipped. apply subseq_app; [apply subseq_refl | apply filter_subseq].
+    + assert (Hlen : length seq <= a) by (apply nth_error_None; assumption).
+      rewrite firstn_all2 by assumption.
+      replace (filter (skipped kp) seq) with (filter (skipped kp) seq ++ []) by apply app_nil_r.
+      apply subseq_app; [apply filter_subseq | constructor].
+Qed.
+
+Lemma ctx_rules_simple : forall sub g, is_simple sub = true -> ctx_rules sub g = [].
+Proof. intros sub g H. destruct sub; simpl in *; try reflexivity; discriminate. Qed.
+
+Lemma try_sub_simple : forall ll gd budget rec kp a tl s sub,
+  is_simple sub = true ->
+  try_sub ll gd budget rec kp a tl s sub =
+  match simple_effect gd kp (s_seq s) a (length (s_seq s) - tl) sub with
+  | Some (e, ok) => Some (apply_effect e (and_ok ok s))
+  | None => None
+  end.
+Proof.
+  intros. unfold try_sub.
+  destruct (simple_effect gd kp (s_seq s) a (length (s_seq s) - tl) sub) as [[e ok]|]; [reflexivity|].
+  rewrite ctx_rules_simple by assumption. reflexivity.
+Qed.
+
+Lemma try_subs_skipped : forall ll gd budget rec kp a tl s subs s' next,
+  forallb is_simple subs = true ->
+  kp (gid_at (s_seq s) a) = true ->
+  try_subs ll gd budget rec kp a tl s subs = Some (s', next) ->
+  Subseq (filter (skipped kp) (s_seq s)) (s_seq s').
+Proof.
+  intros ll gd budget rec kp a tl s subs. induction subs as [|sub subs IH]; intros s' next Hsimple Hk H.
+  - discriminate.
+  - cbn [forallb] in Hsimple. apply andb_prop in Hsimple. destruct Hsimple as [Hs1 Hs2].
+    cbn [try_subs] in H. rewrite try_sub_simple in H by assumption.
+    destruct (simple_effect gd kp (s_seq s) a (length (s_seq s) - tl) sub) as [[e ok]|] eqn:E.
+    + inversion H as [H1]. apply simple_effect_wf in E. destruct E as [Hwf _].
+      pose proof (apply_effect_skipped kp (s_seq s) a e (and_ok ok s) eq_refl Hwf Hk) as Hsub.
+      rewrite H1 in Hsub. exact Hsub.
+    + eapply IH; eassumption.
+Qed.
+
+Lemma step_skipped : forall ll gd budget lk p seq seq' next ok,
+  forallb is_simple (lk_subs lk) = true ->
+  step ll gd budget lk p seq = (seq', next, ok) ->
+  Subseq (filter (skipped (kp_of gd lk)) seq) seq'.
+Proof.
+  intros ll gd budget lk p seq seq' next ok Hsimple H. unfold step in H.
+  destruct (kp_of gd lk (gid_at seq p)) eqn:Hk.
+  - destruct budget as [|f]; cbn [apply_at] in H.
+    + inversion H; subst. apply filter_subseq.
+    + destruct (try_subs ll gd (S f) (apply_at ll gd (S f) f) (kp_of gd lk) p 0 (mkSt seq [] 0 true) (lk_subs lk))
+        as [[s' nx]|] eqn:E.
+      * inversion H; subst. eapply (try_subs_skipped _ _ _ _ _ _ _ (mkSt seq [] 0 true)); eassumption.
+      * inversion H; subst. apply filter_subseq.
+  - inversion H; subst. apply filter_subseq.
+Qed.
+
+Lemma scan_skipped : forall ll gd budget lk fuel r seq ok,
+  forallb is_simple (lk_subs lk) = true ->
+  Subseq (filter (skipped (kp_of gd lk)) seq) (fst (scan ll gd budget lk fuel r seq ok)).
+Proof.
+  intros ll gd budget lk fuel. induction fuel as [|f IH]; intros r seq ok Hsimple; cbn [scan].
+  - apply filter_subseq.
+  - destruct (r =? 0); [apply filter_subseq|].
+    destruct (step ll gd budget lk (length seq - r) seq) as [[seq' next] ok'] eqn:E.
+    eapply skipped_chain; [eapply step_skipped; eassumption | apply IH; assumption].
+Qed.
+
+(* ---------------------------------------------------------- scan progress *)
+
+Lemma fold_set_nth_length : forall (upd : list (nat * glyph)) (l : list glyph),
+  length (fold_left (fun l u => set_nth (fst u) (snd u) l) upd l) = length l.
+Proof.
+  induction upd as [|u upd IH]; intros l; simpl; [reflexivity|].
+  rewrite IH. apply set_nth_length.
+Qed.
+
+Lemma drop_at_length {A} : forall (l : list A) p qs, length (drop_at l p qs) <= length l.
+Proof. intros. apply subseq_length. apply drop_at_subseq. Qed.
+
+Lemma merge_next_ge : forall kp preds l a qs,
+  match_seq kp preds l (S a) = Some qs -> S a <= S (last_pos (a :: qs) a) - length qs.
+Proof.
+  intros kp preds l a qs H. unfold last_pos. destruct qs as [|q0 qs0].
+  - simpl. lia.
+  - rewrite (last_cons_ne a (q0 :: qs0) a 0) by discriminate.
+    assert (Hne : q0 :: qs0 <> []) by discriminate.
+    pose proof (match_seq_last _ _ _ _ _ H Hne). lia.
+Qed.
+
+Lemma apply_effect_progress : forall kp seq a e s,
+  s_seq s = seq -> effect_wf kp seq a e -> a < length seq ->
+  length (s_seq (fst (apply_effect e s))) - snd (apply_effect e s) < length seq - a.
+Proof.
+  intros kp seq a e s Hs Hwf Ha. destruct e as [upd next | p gs | ms lig].
+  - destruct Hwf as [Hn _]. cbn [apply_effect fst snd s_seq].
+    rewrite fold_set_nth_length, Hs. lia.
+  - destruct Hwf as [-> Hne]. cbn [apply_effect fst snd s_seq]. rewrite Hs.
+    rewrite !app_length, firstn_length, skipn_length.
+    destruct gs; [congruence|]. simpl. lia.
+  - destruct Hwf as (preds & b & qs & -> & Hm). cbn [apply_effect fst snd s_seq hd tl]. rewrite Hs.
+    pose proof (merge_next_ge _ _ _ _ _ Hm) as Hn.
+    rewrite app_length, firstn_length. cbn [length].
+    pose proof (drop_at_length (skipn (S a) seq) (S a) qs) as Hd.
+    rewrite skipn_length in Hd. lia.
+Qed.
+
+Lemma skip_ignored_ge : forall kp l p, p <= skip_ignored kp l p.
+Proof.
+  intros kp l. induction l as [|g l IH]; intros p; simpl; [lia|].
+  destruct (kp (gid g)); [lia|]. specialize (IH (S p)). lia.
+Qed.
+
+Lemma find_rule_inv : forall kp seq a b rs P acts,
+  find_rule kp seq a b rs = Some (P, acts) ->
+  exists pre r post, rs = pre ++ r :: post /\
+    (forall x, In x pre -> rule_matches kp seq a b x = None) /\
+    rule_matches kp seq a b r = Some P /\ acts = r_acts r.
+Proof.
+  intros kp seq a b rs. induction rs as [|r rs IH]; intros P acts H; cbn [find_rule] in H; [discriminate|].
+  destruct (rule_matches kp seq a b r) as [ms|] eqn:E.
+  - inversion H; subst. exists [], r, rs.
+    split; [reflexivity|]. split; [intros ? []|]. split; [assumption|reflexivity].
+  - destruct (IH _ _ H) as (pre & r' & post & -> & Hpre & Hm & Ha).
+    exists (r :: pre), r', post.
+    split; [reflexivity|]. split; [|split; assumption].
+    intros x [<-|Hin]; [assumption | apply Hpre; assumption].
+Qed.
+
+Lemma rule_matches_inv : forall kp seq a b r P,
+  rule_matches kp seq a b r = Some P ->
+  match_input kp seq a b (r_in r) = Some P /\
+  match_ctx kp (r_back r) (rev (firstn a seq)) = true /\
+  match_ctx kp (r_look r) (skipn (S (last_pos P a)) seq) = true.
+Proof.
+  intros kp seq a b r P H. unfold rule_matches in H.
+  destruct (match_input kp seq a b (r_in r)) as [ms|] eqn:E; [|discriminate].
+  destruct (match_ctx kp (r_back r) (rev (firstn a seq))) eqn:Eb; cbn [andb] in H; [|discriminate].
+  destruct (match_ctx kp (r_look r) (skipn (S (last_pos ms a)) seq)) eqn:El; [|discriminate].
+  inversion H; subst. auto.
+Qed.
+
+Lemma match_input_last_ge : forall kp seq a b preds P,
+  match_input kp seq a b preds = Some P -> a <= last_pos P a /\ a < length seq /\ a < b.
+Proof.
+  intros kp seq a b preds P H. destruct preds as [|pr rest]; [discriminate|].
+  apply match_input_inv in H. destruct H as (g0 & qs & Hn & Hab & _ & Hm & ->).
+  assert (a < length seq) by (apply nth_error_Some; congruence).
+  repeat split; try assumption. unfold last_pos. destruct qs as [|q0 qs0]; [simpl; lia|].
+  rewrite (last_cons_ne a (q0 :: qs0) a 0) by discriminate.
+  assert (Hne : q0 :: qs0 <> []) by discriminate.
+  pose proof (match_seq_bounds _ _ _ _ _ Hm _ (last_in _ 0 Hne)). lia.
+Qed.
+
+Lemma try_sub_progress : forall ll gd budget rec kp a tl s sub s' next,
+  try_sub ll gd budget rec kp a tl s sub = Some (s', next) ->
+  length (s_seq s') - next < length (s_seq s) - a.
+Proof.
+  intros ll gd budget rec kp a tl s sub s' next H. unfold try_sub in H.
+  destruct (simple_effect gd kp (s_seq s) a (length (s_seq s) - tl) sub) as [[e ok]|] eqn:E.
+  - apply simple_effect_wf in E. destruct E as [Hwf Ha].
+    pose proof (apply_effect_progress kp (s_seq s) a e (and_ok ok s) eq_refl Hwf Ha) as Hp.
+    inversion H as [H1]. rewrite H1 in Hp. exact Hp.
+  - destruct (find_rule kp (s_seq s) a (length (s_seq s) - tl) (ctx_rules sub (gid_at (s_seq s) a)))
+      as [[P acts]|] eqn:Ef; [|discriminate].
+    apply find_rule_inv in Ef. destruct Ef as (pre & r & post & _ & _ & Hm & _).
+    apply rule_matches_inv in Hm. destruct Hm as (Hm & _ & _).
+    apply match_input_last_ge in Hm. destruct Hm as (Hl & Ha & _).
+    inversion H; subst. clear H.
+    pose proof (skip_ignored_ge kp (slice (s_seq s) (S (last_pos P a)) (length (s_seq s) - tl)) (S (last_pos P a))) as Hs.
+    unfold end_pos. unfold pop_frame. cbn [s_seq]. lia.
+Qed.
+
+Lemma try_subs_progress : forall ll gd budget rec kp a tl s subs s' next,
+  try_subs ll gd budget rec kp a tl s subs = Some (s', next) ->
+  length (s_seq s') - next < length (s_seq s) - a.
+Proof.
+  intros ll gd budget rec kp a tl s subs. induction subs as [|sub subs IH]; intros s' next H; cbn [try_subs] in H.
+  - discriminate.
+  - destruct (try_sub ll gd budget rec kp a tl s sub) as [[s1 n1]|] eqn:E.
+    + inversion H; subst. eapply try_sub_progress; eassumption.
+    + apply IH; assumption.
+Qed.
+
+Lemma step_decreases : forall ll gd budget lk r seq seq' next ok,
+  0 < r -> r <= length seq ->
+  step ll gd budget lk (length seq - r) seq = (seq', next, ok) ->
+  length seq' - next < r.
+Proof.
+  intros ll gd budget lk r seq seq' next ok Hr Hle H. unfold step in H.
+  set (p := length seq - r) in *.
+  assert (Hp : length seq - S p < r) by lia.
+  destruct (kp_of gd lk (gid_at seq p)).
+  - destruct budget as [|f]; cbn [apply_at] in H.
+    + inversion H; subst. simpl. exact Hp.
+    + destruct (try_subs ll gd (S f) (apply_at ll gd (S f) f) (kp_of gd lk) p 0 (mkSt seq [] 0 true) (lk_subs lk))
+        as [[s' nx]|] eqn:E.
+      * inversion H; subst. apply try_subs_progress in E. simpl in E. lia.
+      * inversion H; subst. exact Hp.
+  - inversion H; subst. exact Hp.
+Qed.
+
+Lemma scan_trace_decreasing : forall ll gd budget lk fuel r seq,
+  r <= length seq ->
+  strictly_decreasing (scan_trace ll gd budget lk fuel r seq).
+Proof.
+  intros ll gd budget lk fuel. induction fuel as [|f IH]; intros r seq Hle; cbn [scan_trace].
+  - exact I.
+  - destruct (r =? 0) eqn:Er; [exact I|]. apply Nat.eqb_neq in Er.
+    destruct (step ll gd budget lk (length seq - r) seq) as [[seq' next] ok] eqn:E.
+    assert (Hr : 0 < r) by lia.
+    pose proof (step_decreases _ _ _ _ _ _ _ _ _ Hr Hle E) as Hd.
+    cbn [strictly_decreasing]. split.
+    + destruct f; cbn [scan_trace]; [exact I|].
+      destruct (length seq' - next =? 0); [exact I|].
+      destruct (step ll gd budget lk (length seq' - (length seq' - next)) seq') as [[? ?] ?]. exact Hd.
+    + apply IH. lia.
+Qed.
+
+(* the fuel |seq| given by apply_lookup always suffices *)
+Lemma scan_fuel_irrelevant : forall ll gd budget lk f1 f2 r seq ok,
+  r <= f1 -> r <= f2 -> r <= length seq ->
+  scan ll gd budget lk f1 r seq ok = scan ll gd budget lk f2 r seq ok.
+Proof.
+  intros ll gd budget lk f1. induction f1 as [|f1 IH]; intros f2 r seq ok H1 H2 Hle.
+  - assert (r = 0) by lia. subst. destruct f2; [reflexivity|].
+    cbn [scan Nat.eqb]. rewrite andb_true_r. reflexivity.
+  - destruct f2 as [|f2].
+    + assert (r = 0) by lia. subst. cbn [scan Nat.eqb]. rewrite andb_true_r. reflexivity.
+    + cbn [scan]. destruct (r =? 0) eqn:Er; [reflexivity|]. apply Nat.eqb_neq in Er.
+      destruct (step ll gd budget lk (length seq - r) seq) as [[seq' next] ok'] eqn:E.
+      assert (Hr : 0 < r) by lia.
+      pose proof (step_decreases _ _ _ _ _ _ _ _ _ Hr Hle E) as Hd.
+      apply IH; lia.
+Qed.
+
+(* -------------------------------------------------------------- ligature *)
+
+Lemma match_seq_glyphs : forall kp comps l p qs,
+  match_seq kp (map PGlyph comps) l p = Some qs ->
+  map (fun q => match nth_error l (q - p) with Some g => gid g | None => 0%N end) qs = comps.
+Proof.
+  intros kp comps. induction comps as [|c comps IH]; intros l p qs H; cbn [map match_seq] in H.
+  - inversion H; reflexivity.
+  - destruct (next_kept kp l p) as [[[g l'] q]|] eqn:En; [|discriminate].
+    destruct (test_pred (PGlyph c) (gid g)) eqn:Et; [|discriminate].
+    destruct (match_seq kp (map PGlyph comps) l' (S q)) as [qs'|] eqn:E; [|discriminate].
+    inversion H; subst. apply next_kept_spec in En. destruct En as (Hle & Hn & Hk & Hl & Hs).
+    cbn [map]. rewrite Hn. simpl in Et. apply N.eqb_eq in Et. f_equal; [assumption|].
+    rewrite <- (IH _ _ _ E). apply map_ext_in. intros q' Hq'.
+    pose proof (match_seq_bounds _ _ _ _ _ E q' Hq') as Hb.
+    subst l'. rewrite nth_error_skipn_add. replace (S (q - p) + (q' - S q)) with (q' - p) by lia.
+    reflexivity.
+Qed.
+
+Lemma ligature_result : forall kp seq a b g ligs ms out s lig,
+  find_lig kp seq a b g ligs = Some (ms, out) -> s_seq s = seq ->
+  exists comps,
+    In (comps, out) ligs /\
+    map (gid_at seq) ms = g :: comps /\
+    hd 0 ms = a /\
+    Forall (fun p => kp (gid_at seq p) = true) (tl ms) /\
+    s_seq (fst (apply_effect (EMerge ms lig) s)) =
+      firstn a seq ++ lig :: filter (skipped kp) (slice seq (S a) (S (last_pos ms a)))
+                   ++ skipn (S (last_pos ms a)) seq.
+Proof.
+  intros kp seq a b g ligs ms out s lig H Hs.
+  apply find_lig_inv in H. destruct H as (pre & comps & post & -> & _ & Hm).
+  apply match_input_inv in Hm. destruct Hm as (g0 & qs & Hn & Hab & Ht & Hq & ->).
+  exists comps. split; [apply in_or_app; right; left; reflexivity|].
+  assert (Hnth : forall q, In q qs -> exists h, nth_error (slice seq (S a) b) (q - S a) = Some h /\
+                                          nth_error seq q = Some h).
+  { intros q Hin. pose proof (match_seq_bounds _ _ _ _ _ Hq q Hin) as Hb.
+    assert (Hx : q - S a < length (slice seq (S a) b)) by lia.
+    apply nth_error_Some in Hx.
+    destruct (nth_error (slice seq (S a) b) (q - S a)) as [h|] eqn:Eh; [|congruence].
+    exists h. split; [reflexivity|]. apply nth_error_slice in Eh. destruct Eh as [Eh _].
+    replace (S a + (q - S a)) with q in Eh by lia. assumption. }
+  split; [|split; [reflexivity|split]].
+  - cbn [map]. f_equal.
+    + unfold gid_at. rewrite Hn. simpl in Ht. apply N.eqb_eq in Ht. assumption.
+    + rewrite <- (match_seq_glyphs _ _ _ _ _ Hq). apply map_ext_in. intros q Hin.
+      destruct (Hnth q Hin) as (h & H1 & H2). unfold gid_at. rewrite H1, H2. reflexivity.
+  - cbn [tl]. apply Forall_forall. intros q Hin.
+    destruct (Hnth q Hin) as (h & H1 & H2). unfold gid_at. rewrite H2.
+    pose proof (match_seq_kept_iff _ _ _ _ _ Hq (q - S a) h) as Hk.
+    replace (S a + (q - S a)) with q in Hk
+      by (pose proof (match_seq_bounds _ _ _ _ _ Hq q Hin); lia).
+    rewrite Hk; [apply memnat_true; assumption | | | assumption].
+    + eapply match_seq_le_last; eassumption.
+    + intros ->. destruct Hin.
+  - cbn [apply_effect fst s_seq hd tl]. rewrite Hs.
+    rewrite (merge_shape _ _ _ _ _ _ Hq). reflexivity.
+Qed.
+
+Lemma ligature_effect : forall gd kp seq a b m g0 ligs ms out,
+  nth_error seq a = Some g0 -> assoc (gid g0) m = Some ligs ->
+  find_lig kp seq a b (gid g0) ligs = Some (ms, out) ->
+  simple_effect gd kp seq a b (SLigature m) =
+  Some (EMerge ms (mkG out (flat_map (text_at seq) ms) 0%Z 0%Z 0%Z), true).
+Proof. intros. unfold simple_effect. rewrite H, H0, H1. reflexivity. Qed.
+
+(* ------------------------------------------------------------ positioning *)
+
+Lemma eset1_result : forall (seq : list glyph) a g' next s,
+  s_seq s = seq -> a < length seq ->
+  let seq' := s_seq (fst (apply_effect (ESet [(a, g')] next) s)) in
+  nth_error seq' a = Some g' /\ (forall q, q <> a -> nth_error seq' q = nth_error seq q) /\
+  length seq' = length seq.
+Proof.
+  intros seq a g' next s Hs Ha. cbn [apply_effect fst s_seq fold_left snd]. rewrite Hs.
+  split; [apply nth_error_set_nth_same; assumption|].
+  split; [intros q Hq; apply nth_error_set_nth_other; auto | apply set_nth_length].
+Qed.
+
+Lemma eset2_result : forall (seq : list glyph) a p g' g'' next s,
+  s_seq s = seq -> a < length seq -> p < length seq -> a <> p ->
+  let seq' := s_seq (fst (apply_effect (ESet [(a, g'); (p, g'')] next) s)) in
+  nth_error seq' a = Some g' /\ nth_error seq' p = Some g'' /\
+  (forall q, q <> a -> q <> p -> nth_error seq' q = nth_error seq q) /\
+  length seq' = length seq.
+Proof.
+  intros seq a p g' g'' next s Hs Ha Hp Hne. cbn [apply_effect fst s_seq fold_left snd]. rewrite Hs.
+  split; [|split; [|split]].
+  - rewrite nth_error_set_nth_other by auto. apply nth_error_set_nth_same; assumption.
+  - apply nth_error_set_nth_same. rewrite set_nth_length. assumption.
+  - intros q H1 H2. rewrite !nth_error_set_nth_other by auto. reflexivity.
+  - rewrite !set_nth_length. reflexivity.
+Qed.
+
+Lemma pos1_effect : forall gd kp seq a b cov v g0,
+  nth_error seq a = Some g0 -> memN (gid g0) cov = true ->
+  simple_effect gd kp seq a b (SPos1 cov v) = Some (ESet [(a, add_vr v g0)] (S a), vr_ok v g0).
+Proof. intros. unfold simple_effect. rewrite H, H0. reflexivity. Qed.
+
+Lemma pos2_effect : forall gd kp seq a b m v g0,
+  nth_error seq a = Some g0 -> assoc (gid g0) m = Some v ->
+  simple_effect gd kp seq a b (SPos2 m) = Some (ESet [(a, add_vr v g0)] (S a), vr_ok v g0).
+Proof. intros. unfold simple_effect. rewrite H, H0. reflexivity. Qed.
+
+Lemma pair1_effect_both : forall gd kp seq a b m g0 g1 l' p row v1 v2,
+  nth_error seq a = Some g0 ->
+  next_kept kp (slice seq (S a) b) (S a) = Some (g1, l', p) ->
+  assoc (gid g0) m = Some row -> assoc (gid g1) row = Some (v1, Some v2) ->
+  simple_effect gd kp seq a b (SPair1 m) =
+  Some (ESet [(a, add_vr v1 g0); (p, add_vr v2 g1)] (S p), vr_ok v1 g0 && vr_ok v2 g1).
+Proof. intros. unfold simple_effect. rewrite H, H0, H1, H2. reflexivity. Qed.
+
+Lemma pair1_effect_first : forall gd kp seq a b m g0 g1 l' p row v1,
+  nth_error seq a = Some g0 ->
+  next_kept kp (slice seq (S a) b) (S a) = Some (g1, l', p) ->
+  assoc (gid g0) m = Some row -> assoc (gid g1) row = Some (v1, None) ->
+  simple_effect gd kp seq a b (SPair1 m) = Some (ESet [(a, add_vr v1 g0)] p, vr_ok v1 g0).
+Proof. intros. unfold simple_effect. rewrite H, H0, H1, H2. reflexivity. Qed.
+
+Lemma pair2_effect : forall gd kp seq a b cov cd1 cd2 m g0 g1 l' p row v1 v2o,
+  nth_error seq a = Some g0 -> memN (gid g0) cov = true ->
+  next_kept kp (slice seq (S a) b) (S a) = Some (g1, l', p) ->
+  nth_error m (N.to_nat (class_of cd1 (gid g0))) = Some row ->
+  nth_error row (N.to_nat (class_of cd2 (gid g1))) = Some (v1, v2o) ->
+  simple_effect gd kp seq a b (SPair2 cov cd1 cd2 m) =
+  match v2o with
+  | None => Some (ESet [(a, add_vr v1 g0)] p, vr_ok v1 g0)
+  | Some v2 => Some (ESet [(a, add_vr v1 g0); (p, add_vr v2 g1)] (S p), vr_ok v1 g0 && vr_ok v2 g1)
+  end.
+Proof. intros. unfold simple_effect. rewrite H, H0, H1, H2, H3. destruct v2o; reflexivity. Qed.
+
+Lemma markbase_effect : forall gd kp seq a b marks (bases : list (N * list anchor)) g0 cls mx my
+    (anchors : list anchor) d bx byy,
+  nth_error seq a = Some g0 -> assoc (gid g0) marks = Some (cls, (mx, my)) ->
+  find_base bases (rev (firstn a seq)) 1 = Some (anchors, d) ->
+  nth_error anchors cls = Some (Some (bx, byy)) ->
+  exists ok,
+  simple_effect gd kp seq a b (SMarkBase marks bases) =
+  Some (ESet [(a, mkG (gid g0) (gtext g0)
+                      (gx g0 + (bx - mx - sum_adv (slice seq (a - d) a)))%Z
+                      (gy g0 + (byy - my))%Z (gadv g0))] (S a), ok).
+Proof.
+  intros. unfold simple_effect. rewrite H. cbn iota beta. rewrite H0. cbn iota beta.
+  rewrite H1. cbn iota beta. rewrite H2. eexists. reflexivity.
+Qed.
+
+(* the base found by find_base is the nearest preceding glyph with a base record *)
+Lemma find_base_spec : forall V (bases : list (N * V)) l d0 v d,
+  find_base bases l d0 = Some (v, d) ->
+  d0 <= d /\ (exists g, nth_error l (d - d0) = Some g /\ assoc (gid g) bases = Some v) /\
+  (forall i h, i < d - d0 -> nth_error l i = Some h -> assoc (gid h) bases = None).
+Proof.
+  intros V bases l. induction l as [|x l IH]; intros d0 v d H; cbn [find_base] in H; [discriminate|].
+  destruct (assoc (gid x) bases) as [v'|] eqn:E.
+  - inversion H; subst. rewrite Nat.sub_diag. split; [lia|]. split.
+    + exists x. split; [reflexivity|assumption].
+    + intros i h Hi. lia.
+  - apply IH in H. destruct H as (Hle & (g & Hn & Ha) & Hs).
+    split; [lia|]. replace (d - d0) with (S (d - S d0)) by lia. split.
+    + exists g. split; assumption.
+    + intros i h Hi Hnth. destruct i; simpl in Hnth.
+      * inversion Hnth; subst. assumption.
+      * apply (Hs i h); [lia|assumption].
+Qed.
+
+(* ------------------------------------------------------------ no match *)
+
+Lemma step_not_kept : forall ll gd budget lk p seq,
+  kp_of gd lk (gid_at seq p) = false -> step ll gd budget lk p seq = (seq, S p, true).
+Proof. intros. unfold step. rewrite H. reflexivity. Qed.
+
+Lemma step_no_subtable : forall ll gd f lk p seq,
+  (forall x, In x (lk_subs lk) ->
+     try_sub ll gd (S f) (apply_at ll gd (S f) f) (kp_of gd lk) p 0 (mkSt seq [] 0 true) x = None) ->
+  step ll gd (S f) lk p seq = (seq, S p, true).
+Proof.
+  intros ll gd f lk p seq H. unfold step. destruct (kp_of gd lk (gid_at seq p)); [|reflexivity].
+  cbn [apply_at]. rewrite try_subs_none by assumption. reflexivity.
+Qed.
+
+(* ---------------------- the glyph result does not depend on the domain flag *)
+
+Lemma scan_fst_indep : forall ll gd budget lk fuel r seq ok1 ok2,
+  fst (scan ll gd budget lk fuel r seq ok1) = fst (scan ll gd budget lk fuel r seq ok2).
+Proof.
+  intros ll gd budget lk fuel. induction fuel as [|f IH]; intros r seq ok1 ok2; cbn [scan].
+  - reflexivity.
+  - destruct (r =? 0); [reflexivity|].
+    destruct (step ll gd budget lk (length seq - r) seq) as [[seq' next] ok']. apply IH.
+Qed.
+
+Lemma apply_lookup_fst_indep : forall ll gd budget li seq ok1 ok2,
+  fst (apply_lookup ll gd budget (seq, ok1) li) = fst (apply_lookup ll gd budget (seq, ok2) li).
+Proof.
+  intros. unfold apply_lookup. destruct (nth_error ll li); [|reflexivity].
+  cbn [fst snd]. apply scan_fst_indep.
+Qed.
+
+Lemma fold_lookup_fst_indep : forall ll gd budget order seq ok1 ok2,
+  fst (fold_left (apply_lookup ll gd budget) order (seq, ok1)) =
+  fst (fold_left (apply_lookup ll gd budget) order (seq, ok2)).
+Proof.
+  intros ll gd budget order. induction order as [|li order IH]; intros seq ok1 ok2; cbn [fold_left].
+  - reflexivity.
+  - pose proof (apply_lookup_fst_indep ll gd budget li seq ok1 ok2) as H.
+    destruct (apply_lookup ll gd budget (seq, ok1) li) as [s1 o1].
+    destruct (apply_lookup ll gd budget (seq, ok2) li) as [s2 o2].
+    cbn [fst] in H. subst s2. apply IH.
+Qed.
+
+Lemma R_shape_app : forall ll gd l1 l2 seq,
+  R_shape ll gd (l1 ++ l2) seq = R_shape ll gd l2 (R_shape ll gd l1 seq).
+Proof.
+  intros. unfold R_shape. rewrite R_run_app. unfold R_run at 2.
+  destruct (R_run ll gd gtab_actionBudget l1 seq) as [s1 o1]. cbn [fst].
+  apply fold_lookup_fst_indep.
+Qed.
+
+(* ------------------------------------------------ nested actions are live *)
+
+Lemma run_actions_nil : forall ll gd budget rec tl' s,
+  run_actions ll gd budget rec tl' [] s = s.
+Proof. reflexivity. Qed.
+
+(* an action is resolved against the CURRENT input positions of the
+   innermost frame (the head of s_frames at the time the action runs) *)
+Lemma run_actions_cons_live : forall ll gd budget rec tl' si li acts s p lk' s' n,
+  s_ok (count_action budget s) = true ->
+  nth_error (hd [] (s_frames s)) si = Some p ->
+  nth_error ll li = Some lk' ->
+  kp_of gd lk' (gid_at (s_seq s) p) = true ->
+  rec lk' p tl' (count_action budget s) = Some (s', n) ->
+  run_actions ll gd budget rec tl' ((si, li) :: acts) s = run_actions ll gd budget rec tl' acts s'.
+Proof.
+  intros ll gd budget rec tl' si li acts s p lk' s' n Hok Hp Hl Hk Hr.
+  cbn [run_actions]. rewrite Hok. cbn [negb].
+  change (s_frames (count_action budget s)) with (s_frames s).
+  change (s_seq (count_action budget s)) with (s_seq s).
+  rewrite Hp, Hl, Hk, Hr. reflexivity.
+Qed.
+
+Lemma run_actions_cons_skip : forall ll gd budget rec tl' si li acts s,
+  s_ok (count_action budget s) = true ->
+  (nth_error (hd [] (s_frames s)) si = None \/ nth_error ll li = None \/
+   exists p lk', nth_error (hd [] (s_frames s)) si = Some p /\ nth_error ll li = Some lk' /\
+                 kp_of gd lk' (gid_at (s_seq s) p) = false) ->
+  run_actions ll gd budget rec tl' ((si, li) :: acts) s =
+  run_actions ll gd budget rec tl' acts (count_action budget s).
+Proof.
+  intros ll gd budget rec tl' si li acts s Hok H.
+  cbn [run_actions]. rewrite Hok. cbn [negb].
+  change (s_frames (count_action budget s)) with (s_frames s).
+  change (s_seq (count_action budget s)) with (s_seq s).
+  destruct H as [H|[H|(p & lk' & H1 & H2 & H3)]].
+  - rewrite H. reflexivity.
+  - rewrite H. destruct (nth_error (hd [] (s_frames s)) si); reflexivity.
+  - rewrite H1, H2, H3. reflexivity.
+Qed.
+
+(* every enclosing frame is updated by every edit *)
+Lemma frames_after_insert : forall p gs s,
+  s_frames (fst (apply_effect (EInsert p gs) s)) = map (ins_positions p (length gs)) (s_frames s).
+Proof. reflexivity. Qed.
+
+Lemma frames_after_merge : forall ms lig s,
+  s_frames (fst (apply_effect (EMerge ms lig) s)) = map (del_positions (tl ms)) (s_frames s).
+Proof. reflexivity. Qed.
+
+Lemma frames_after_set : forall upd next s,
+  s_frames (fst (apply_effect (ESet upd next) s)) = s_frames s.
+Proof. reflexivity. Qed.
+
+Lemma ins_positions_single : forall p k q,
+  ins_positions p k [q] = if q <? p then [q] else if q =? p then seq p k else [q + k - 1].
+Proof.
+  intros. unfold ins_positions. cbn [flat_map]. rewrite app_nil_r. reflexivity.
+Qed.
+
+Lemma ins_positions_app : forall p k P1 P2,
+  ins_positions p k (P1 ++ P2) = ins_positions p k P1 ++ ins_positions p k P2.
+Proof. intros. unfold ins_positions. apply flat_map_app. Qed.
+
+(* the renumbering of ins_positions follows the glyphs *)
+Lemma insert_tracks : forall (l gs : list glyph) p,
+  p < length l ->
+  let l' := firstn p l ++ gs ++ skipn (S p) l in
+  (forall q, q < p -> nth_error l' q = nth_error l q) /\
+  (forall j, j < length gs -> nth_error l' (p + j) = nth_error gs j) /\
+  (forall q, p < q -> nth_error l' (q + length gs - 1) = nth_error l q).
+Proof.
+  intros l gs p Hp l'. unfold l'.
+  assert (Hf : length (firstn p l) = p) by (rewrite firstn_length; lia).
+  split; [|split].
+  - intros q Hq. rewrite nth_error_app1 by lia. apply nth_error_firstn_lt. assumption.
+  - intros j Hj. rewrite nth_error_app2 by lia. rewrite Hf.
+    replace (p + j - p) with j by lia. apply nth_error_app1. assumption.
+  - intros q Hq. rewrite nth_error_app2 by lia. rewrite Hf.
+    rewrite nth_error_app2 by lia. rewrite nth_error_skipn_add. f_equal. lia.
+Qed.
+
+Lemma del_positions_removed : forall rest q, In q rest -> del_positions rest [q] = [].
+Proof.
+  intros rest q H. unfold del_positions. cbn [flat_map].
+  apply memnat_true in H. rewrite H. reflexivity.
+Qed.
+
+Lemma del_positions_kept : forall rest q, ~ In q rest -> del_positions rest [q] = [q - count_lt rest q].
+Proof.
+  intros rest q H. unfold del_positions. cbn [flat_map].
+  apply memnat_false in H. rewrite H. reflexivity.
+Qed.
+
+Lemma del_positions_app : forall rest P1 P2,
+  del_positions rest (P1 ++ P2) = del_positions rest P1 ++ del_positions rest P2.
+Proof. intros. unfold del_positions. apply flat_map_app. Qed.
+
+Lemma count_lt_before : forall rest q, (forall r, In r rest -> q <= r) -> count_lt rest q = 0.
+Proof.
+  intros rest q H. unfold count_lt. induction rest as [|r rest IH]; [reflexivity|].
+  cbn [filter]. replace (r <? q) with false.
+  - apply IH. intros r' Hr'. apply H. right. assumption.
+  - symmetry. apply Nat.ltb_ge. apply H. left. reflexivity.
+Qed.
+
+(* positions in front of a merge are not renumbered; the ligature stays at
+   the first component's position *)
+Lemma merge_tracks_front : forall (l : list glyph) m0 rest lig,
+  m0 <= length l ->
+  let l' := firstn m0 l ++ lig :: drop_at (skipn (S m0) l) (S m0) rest in
+  (forall q, q < m0 -> nth_error l' q = nth_error l q) /\ nth_error l' m0 = Some lig.
+Proof.
+  intros l m0 rest lig Hm l'. unfold l'.
+  assert (Hf : length (firstn m0 l) = m0) by (rewrite firstn_length; lia).
+  split.
+  - intros q Hq. rewrite nth_error_app1 by lia. apply nth_error_firstn_lt. assumption.
+  - rewrite nth_error_app2 by lia. rewrite Hf, Nat.sub_diag. reflexivity.
+Qed.
+
+(* behind a merge the renumbering q -> q - #(removed before q) follows the
+   glyphs: decided for every sequence of up to 9 glyphs, every position of
+   the ligature and every set of removed positions behind it (positions stand
+   for the glyphs; drop_at and del_positions do not look at glyph contents) *)
+Lemma merge_tracks_upto9 : forallb merge_tracks_check (seq 0 10) = true.
+Proof. vm_compute. reflexivity. Qed.
